@@ -105,7 +105,7 @@ func cliStartServer(kind string, hidden bool) (*cliServer, error) {
 	}
 	scfg := transport.ServerConfig{KeyPair: kp, KEMKeyPair: kem, Certificate: leaf, Intermediate: inter,
 		ClientVerify: &transport.VerifyConfig{InsecureSkipVerify: true}, IsHidden: hidden, MaxPendingConnections: 8,
-		HandshakeTimeout: 5 * time.Second}
+		HandshakeTimeout: 15 * time.Second}
 	s, err := transport.NewServer(conn, scfg)
 	if err != nil {
 		conn.Close()
@@ -286,7 +286,7 @@ func runCli(f []string) string {
 	go func() { res <- c.Dial() }()
 	select {
 	case err = <-res:
-	case <-time.After(20 * time.Second):
+	case <-time.After(60 * time.Second):
 		return "h=hang"
 	}
 	if err == nil {
